@@ -26,6 +26,7 @@ void __sanitizer_finish_switch_fiber(void *fake_stack_save,
 #endif
 
 #if defined(DETSIM_VALGRIND)
+#include <valgrind/memcheck.h>
 #include <valgrind/valgrind.h>
 #endif
 
@@ -478,6 +479,8 @@ void run_region(int n) {
     makecontext(&f.ctx, (void (*)())fiber_main, 0);
 #ifdef DETSIM_VALGRIND
     f.vg_id = VALGRIND_STACK_REGISTER(f.stack, f.stack + STACK_SIZE);
+    // a pooled stack still holds the (defined) values of its previous user
+    VALGRIND_MAKE_MEM_UNDEFINED(f.stack, STACK_SIZE);
 #endif
   }
   // PCT setup for this region
@@ -645,11 +648,31 @@ static void __attribute__((noinline)) scrub_stack(int byte, size_t n) {
     p[k] = (char)byte;
 }
 void scrub_memory(int byte) {
+#if defined(DETSIM_VALGRIND)
+  // under memcheck the fill would turn uninitialised memory into defined
+  // memory: leave it alone, memcheck tracks definedness itself
+  if (RUNNING_ON_VALGRIND)
+    return;
+#endif
 #if !defined(__SANITIZE_ADDRESS__)
   scrub_stack(byte, 3u << 20);
 #endif
   mallopt(M_PERTURB, byte);
   G.stack_fill = byte;
+}
+long valgrind_errors() {
+#if defined(DETSIM_VALGRIND)
+  return (long)VALGRIND_COUNT_ERRORS;
+#else
+  return 0;
+#endif
+}
+bool on_valgrind() {
+#if defined(DETSIM_VALGRIND)
+  return RUNNING_ON_VALGRIND != 0;
+#else
+  return false;
+#endif
 }
 
 void clock_set(double t) { G.clock = t; }
